@@ -223,6 +223,96 @@ def run(tier):
                            "history_latin1": [singles[i]["data"] for i in h], "request_latin1": singles[target]["data"],
                            "tls": singles[target]["tls"], "alone_head": b[:300].decode("latin-1"),
                            "after_history_head": a[:300].decode("latin-1"), "tree": tree}, tag=htag)
+    # ---- I/O faults: every protocol must turn them into ONE well-formed error reply ----
+    ftree = [e for e in tree if not e["path"].startswith("odd/")] + [
+        {"path": "locked", "kind": "dir"}, {"path": "locked/in.txt", "data": "x\n"},
+        {"path": "vanish", "kind": "dir"}, {"path": "vanish/in.txt", "data": "x\n"},
+        {"path": "noperm.txt", "data": "secret\n"}, {"path": "gone.txt", "data": "gone\n"},
+        {"path": "lockedmap", "kind": "dir"}, {"path": "lockedmap/gophermap", "data": "iinfo\n"},
+    ]
+    faults = {"listdir": {"locked": "EACCES", "vanish": "ENOENT"},
+              "open": {"noperm.txt": "EACCES", "gone.txt": "ENOENT", "gophermap": "EACCES"}}
+    freqs, fmeta = [], []
+    for proto in gen.PROTOCOLS:
+        for sel in ("/locked", "/vanish", "/noperm.txt", "/gone.txt", "/lockedmap"):
+            forms = ["+", "$", "!"] if proto.endswith("plus") else [None]
+            for gp in forms:
+                data, tls = gen.request_bytes(proto, sel, gplus=gp or "+")
+                freqs.append({"data": gen.lat(data), "tls": tls})
+                fmeta.append((proto, sel, gp))
+        for sel in ("/locked", "/noperm.txt"):
+            if proto in ("http", "https", "wap"):
+                pre = b"/wap" if proto == "wap" else b""
+                freqs.append({"data": gen.lat(b"HEAD " + pre + sel.encode() + b" HTTP/1.0\r\n\r\n"), "tls": gen.TLS[proto]})
+                fmeta.append((proto, sel, "HEAD"))
+    fres = impl_run_parallel([{"op": "world_faults", "tree": ftree, "config": trees.SITE_CONFIG, "faults": faults, "requests": freqs}])
+    if not fres[0]["ok"]:
+        raise RuntimeError(fres[0]["err"] + fres[0].get("tb", ""))
+    stats["io_fault_requests"] = len(freqs)
+    for (proto, sel, gp), o in zip(fmeta, fres[0]["res"]["results"]):
+        ob = o["out"].encode("latin-1")
+        chk.count(("io-fault", proto, sel, gp), nontrivial=True)
+        why = None
+        if o["exc"]:
+            why = "exception escapes the connection handler: " + o["exc"]
+        else:
+            try:
+                v = V.validate(proto, ob)
+                info_only = gp == "!"          # an information request does not open the object
+                if ob == b"":
+                    why = "no reply at all"
+                elif v["kind"] != "error" and not info_only and gp != "HEAD":
+                    if proto in ("gopher", "sgopher"):
+                        why = "an I/O failure is not answered with an error line: %r" % ob[:80]
+                    else:
+                        why = "an I/O failure is answered with a success status: %r" % ob[:80]
+            except V.Malformed as e:
+                why = "reply to an I/O failure is not valid %s: %s" % (proto, e)
+        if why:
+            found = True
+            chk.violation({"what": why, "protocol": proto, "selector": sel, "gopherplus_form": gp, "faults": faults,
+                           "request_latin1": freqs[fmeta.index((proto, sel, gp))]["data"], "response_latin1": o["out"][:300],
+                           "log": o["log"][-4:], "tree": ftree}, tag=f"io-fault-reply:{proto}:{gp or 'plain'}")
+
+    # ---- descriptor soak: hundreds of distinct requests under a tight descriptor limit, then the first ones again ----
+    stree = [e for e in tree if not e["path"].startswith("odd/")]
+    sreqs = []
+    probes = [b"/a.txt\r\n", b"/\r\n", b"/mail.mbox\r\n", b"GET /dir1 HTTP/1.0\r\n\r\n", b"/mail.mbox|/MBOX-MESSAGE/1\r\n", b"/md\r\n"]
+    for pb in probes:
+        sreqs.append({"data": gen.lat(pb), "tls": False})
+    nsoak = 260 if tier == "quick" else 1200
+    for i in range(nsoak):
+        k = i % 6
+        if k == 0:
+            d = b"/mail.mbox|/MBOX-MESSAGE/%d\r\n" % (i + 1)
+        elif k == 1:
+            d = b"/md|/MAILDIR-MESSAGE/%d\r\n" % (i + 1)
+        elif k == 2:
+            d = b"GET /dir1/c.txt?x=%d HTTP/1.0\r\n\r\n" % i
+        elif k == 3:
+            d = b"/nonexistent-%d\r\n" % i
+        elif k == 4:
+            d = b"/b.html\t!\r\n" if i % 12 == 4 else b"/dir1/sub\t$\r\n"
+        else:
+            d = b"/maps\r\n"
+        sreqs.append({"data": gen.lat(d), "tls": False})
+    for pb in probes:
+        sreqs.append({"data": gen.lat(pb), "tls": False})
+    sres = impl_run_parallel([{"op": "world_faults", "tree": stree, "config": trees.SITE_CONFIG, "nofile": 48, "requests": sreqs}])
+    if not sres[0]["ok"]:
+        raise RuntimeError(sres[0]["err"] + sres[0].get("tb", ""))
+    sout = sres[0]["res"]["results"]
+    stats["soak_requests"] = len(sreqs)
+    for i, pb in enumerate(probes):
+        a = gen.mask_times(sout[i]["out"].encode("latin-1"))
+        b = gen.mask_times(sout[len(sreqs) - len(probes) + i]["out"].encode("latin-1"))
+        chk.count(("soak", pb), nontrivial=True)
+        if a != b:
+            found = True
+            chk.violation({"what": "after %d other requests (descriptor limit 48 above the baseline) the same request is answered differently" % nsoak,
+                           "request_latin1": gen.lat(pb), "first_answer": a[:200].decode("latin-1"), "later_answer": b[:200].decode("latin-1"),
+                           "tree": stree}, tag="history-dependence:resource-leak")
+
     chk.sample({"request_latin1": gen.lat(reqs[6][0]), "tls": reqs[6][1], "response_latin1": res[0]["res"]["results"][6]["out"][:160]})
     chk.sample({"history": [singles[i]["data"] for i in hist_jobs[0][0]], "then": singles[hist_jobs[0][1]]["data"]})
     chk.coverage["oracle"] = dict(stats, requests=len(reqs), handler_lists=2, histories=nhist,
